@@ -35,6 +35,11 @@ def brace_balance(text):
     return depth
 
 
+# option keys of TikZ itself that may open an option list with an argument
+TIKZ_KEYS = {"draw", "fill", "line width", "color", "anchor", "font", "align", "rotate", "xshift", "yshift", "shift", "opacity", "text",
+             "inner sep", "outer sep", "minimum width", "minimum height", "rounded corners", "shape", "at", "name", "label", "pos"}
+
+
 class Picture:
     def __init__(self, code):
         self.code = code
@@ -77,6 +82,13 @@ class Picture:
             raise TikzError("tikz.colour-used-but-not-defined", sorted(missing))
         if re.search(r"\\definecolor", "\n".join(self.body)):
             raise TikzError("tikz.colour-defined-inside-picture")
+        # styles: every custom style a statement starts with (the first key of its option list, when it has an
+        # argument: `\node[loss={...}]`, `\path[transfer branch={...}]`) is defined by a `<name>/.style` of the preamble
+        self.styles = set(re.findall(r"^\s*([A-Za-z][A-Za-z ]*)/\.style", "\n".join(self.preamble), flags=re.M))
+        for st in self.statements:
+            m = re.match(r"\\(?:node|path)\[([A-Za-z][A-Za-z ]*)=", st)
+            if m and m.group(1) not in self.styles and m.group(1) not in TIKZ_KEYS:
+                raise TikzError("tikz.style-used-but-not-defined", m.group(1))
 
     # ----- statement kinds -------------------------------------------------
     def nodes(self, style):
